@@ -70,14 +70,14 @@ Step(e) ==
          ELSE LET b == mem[e.id]
                   ordered == \A a \in b.acs : HB(a, t, c)
               IN [clk |-> Tick(clk, t), rel |-> rel, mem |-> [mem EXCEPT ![e.id].live = FALSE], excl |-> excl,
-                  V |-> (IF ~b.live THEN {<<"C05", "freed_once">>, <<"C03", "freed_once">>} ELSE {})
+                  V |-> (IF ~b.live THEN {<<"C05", "freed_once">>, <<"C03", "freed_once">>, <<"C02", "freed_once">>} ELSE {})
                         \* a deallocation that is not ordered after another thread's accesses: a data
                         \* race (C06); an execution in which C11 lets that thread read released storage
                         \* (C05, quantified over all outcomes the memory model allows); a release that
                         \* is not "after the last handle is gone" in the happens-before sense (C03)
-                        \cup (IF b.live /\ ~ordered THEN {<<"C06", "no_race">>, <<"C05", "reads_original_weak">>, <<"C03", "release_after_use">>} ELSE {})]
+                        \cup (IF b.live /\ ~ordered THEN {<<"C06", "no_race">>, <<"C05", "reads_original_weak">>, <<"C03", "release_after_use">>, <<"C02", "free_ordered">>} ELSE {})]
     [] e.k = "bad_free" ->
-         [clk |-> Tick(clk, t), rel |-> rel, mem |-> mem, excl |-> excl, V |-> {<<"C05", "freed_once">>, <<"C03", "freed_once">>}]
+         [clk |-> Tick(clk, t), rel |-> rel, mem |-> mem, excl |-> excl, V |-> {<<"C05", "freed_once">>, <<"C03", "freed_once">>, <<"C02", "freed_once">>}]
     [] e.k = "atomic" /\ e.op # "get_mut" ->
          LET isload == e.op = "load" \/ (e.op = "cas" /\ ~e.ok)
              o == IF e.op = "cas" /\ ~e.ok THEN e.ordf ELSE e.ord
@@ -90,9 +90,12 @@ Step(e) ==
          IN [clk |-> Tick([clk EXCEPT ![t] = c1], t), rel |-> rel2,
              mem |-> IF inblk THEN [mem EXCEPT ![e.blk] = AddAcc(@, Acc(t, c[t], 0, 0, FALSE))] ELSE mem,
              excl |-> excl,
-             V |-> (IF inblk /\ ~b.live THEN {<<"C05", "no_uaf">>, <<"C06", "no_uaf">>, <<"C03", "no_uaf">>} ELSE {})
+             V |-> (IF inblk /\ ~b.live THEN {<<"C05", "no_uaf">>, <<"C06", "no_uaf">>, <<"C03", "no_uaf">>, <<"C02", "no_uaf">>} ELSE {})
                    \* touching a control block whose initialisation does not happen-before
-                   \cup (IF inblk /\ b.live /\ ~(\A a \in b.acs : (a.wr /\ a.hi > a.lo) => HB(a, t, c1)) THEN {<<"C06", "no_race">>} ELSE {})]
+                   \* (a data race on the count itself: C11 then allows any outcome for the count, so
+                   \* "freed exactly once, after the last handle" is not guaranteed in that execution)
+                   \cup (IF inblk /\ b.live /\ ~(\A a \in b.acs : (a.wr /\ a.hi > a.lo) => HB(a, t, c1))
+                         THEN {<<"C06", "no_race">>, <<"C05", "count_init_unordered">>} ELSE {})]
     [] e.k = "read" ->
          LET known == e.id > 0 /\ e.id \in DOMAIN mem
              b == IF known THEN mem[e.id] ELSE NoBlk
@@ -102,7 +105,7 @@ Step(e) ==
                    \* the bytes a conversion copied out are not the handle's bytes: the copy used the
                    \* storage after it was released to the allocator or to a new exclusive owner
                    \cup (IF ~e.dok /\ e.note = "converted" THEN {<<"C06", "copy_after_release">>, <<"C03", "copy_after_release">>} ELSE {})
-                   \cup (IF known /\ ~b.live THEN {<<"C05", "no_uaf">>, <<"C06", "no_uaf">>, <<"C03", "no_uaf">>} ELSE {})
+                   \cup (IF known /\ ~b.live THEN {<<"C05", "no_uaf">>, <<"C06", "no_uaf">>, <<"C03", "no_uaf">>, <<"C02", "no_uaf">>} ELSE {})
                    \* a buffer read racing with a write of the new exclusive owner: besides being a data
                    \* race (C06) it is an execution in which C11 lets the reader see other bytes (C05)
                    \cup (IF known /\ b.live /\ ~(\A a \in b.acs : (a.wr /\ Overlap(a, e.loc, e.size)) => HB(a, t, c))
@@ -113,7 +116,7 @@ Step(e) ==
              ordered == \A a \in b.acs : Overlap(a, e.loc, e.size) => HB(a, t, c)
          IN [clk |-> Tick(clk, t), rel |-> rel,
              mem |-> IF known THEN [mem EXCEPT ![e.id] = AddAcc(@, Acc(t, c[t], e.loc, e.size, TRUE))] ELSE mem, excl |-> excl,
-             V |-> (IF known /\ ~b.live THEN {<<"C05", "no_uaf">>, <<"C06", "no_uaf">>, <<"C03", "no_uaf">>} ELSE {})
+             V |-> (IF known /\ ~b.live THEN {<<"C05", "no_uaf">>, <<"C06", "no_uaf">>, <<"C03", "no_uaf">>, <<"C02", "no_uaf">>} ELSE {})
                    \cup (IF known /\ b.live /\ ~ordered THEN {<<"C06", "no_race">>, <<"C05", "reads_original_weak">>} ELSE {})]
     [] e.k = "excl" ->
          LET n == (IF e.id \in DOMAIN excl THEN excl[e.id] ELSE 0) + 1 IN
